@@ -42,7 +42,9 @@ class Codes:
     def code(self, t, which="row"):
         key = (t, which)
         if key in self._memo: return self._memo[key]
-        if isinstance(t, T) and t.op == "ite":
+        if (not self.concrete) and t in self.rows:          # a store element that is itself an ite-tree is an atom
+            r = self._leaf(t, which)
+        elif isinstance(t, T) and t.op == "ite":
             r = tm.ite(t.args[0], self.code(t.args[1], which), self.code(t.args[2], which))
         else:
             r = self._leaf(t, which)
